@@ -7,8 +7,16 @@
               sessions connecting / subscribing / unsubscribing / closing, and the client cache with the fill and the
               notification handling as two steps each.  Reachability witnesses guard against vacuity.
   2. leads    configurations in which TLC is EXPECTED to find a counterexample (Notify_lead_*.cfg, run on NotifyGen so
-              that the counterexample carries its scenario): a cache fill racing an invalidation (positive ttl) and the
-              subscriptions/listen clean-up.  A lead is never a verdict: its scenario is replayed on the real code.
+              that the counterexample carries its scenario): the clean-up of a cancelled URI listen stream that deletes a
+              newer subscription.  A lead is never a verdict: its scenario is replayed on the real code.
+     witness  the cache fill racing an invalidation was repaired in the SDK (generation check, f71bafa): the model follows
+              the repair (GenCheck = TRUE: TLC proves Fresh with a positive ttl and every interleaving) and keeps the old
+              behaviour behind the switch; Notify_lead_cache/read.cfg run with GenCheck = FALSE and TLC must still find
+              the stale fill (sensitivity), whose "hold put" scenario stays in the replay set: a regression of the repair
+              is a VIOLATION cache:stale-fill-after-invalidate:<kind> on the real code.  Likewise the listen clean-up that
+              dropped a session's list-changed subscriptions (5eb4542; switch ListenOwns, witness Notify_lead_unsub.cfg,
+              regression signature NeverLost:modern:uri-unsubscribe-drops-list-changed; Notify_mc_unsub.cfg proves
+              NeverLost with modern URI unsubscribes).
   3. generate spec/NotifyGen.tla (scenario discipline, history of environment actions): every complete behaviour of a
               small timing configuration (1-2 changes, 3 in the thorough tier, against the timer window, sessions
               closing in between) and seeded simulations of three larger configurations.
@@ -28,6 +36,7 @@ KINDS = ("tools", "prompts", "resources", "templates")
 NOTIF_OF = {"tools": "tools", "prompts": "prompts", "resources": "resources", "templates": "resources"}
 WANT_ALL = list(NOTIFS)
 CLOBBER_SIG = "NeverLost:modern:uri-unsubscribe-drops-list-changed"
+WITNESS = {"cache": "LeadFresh", "unsub": "LeadNeverLost"}  # lead families that are repaired in the SDK
 RESUB_SIG = "UpdatedExactlySubscribers:missing:modern:stale-unsubscribe-overtakes-resubscribe"
 
 
@@ -91,7 +100,7 @@ def front(v, tier, seed):
 
     # 1. design
     mcs = ["Notify_mc_cache.cfg", "Notify_mc_core.cfg", "Notify_mc_shared.cfg", "Notify_mc_ttl.cfg",
-           "Notify_mc_timed.cfg", "Notify_mc_off.cfg", "Notify_mc_read.cfg"]
+           "Notify_mc_timed.cfg", "Notify_mc_off.cfg", "Notify_mc_read.cfg", "Notify_mc_unsub.cfg"]
     if tier == "thorough":
         mcs = ["Notify_mc_cache_t.cfg", "Notify_mc_core_t.cfg"] + mcs
     for c in mcs:
@@ -137,10 +146,20 @@ def front(v, tier, seed):
     leads = []
     for key, c, sub in lds:
         res = got[("lead",) + key]
-        v.add_tlc("%s[%s] (lead, counterexample expected)" % (c, key[1]), res)
         if res.error:
             raise vlib.MachineryError("lead config %s: %s\n%s" % (c, res.error, res.stdout[-1500:]))
         sc = [p for p in res.printed if isinstance(p, dict) and "why" in p and p["why"] != "terminal"]
+        if key[0] in WITNESS:
+            # sensitivity witness: with the repair switch off (GenCheck = FALSE: the behaviour before f71bafa; ListenOwns =
+            # FALSE: before 5eb4542) TLC must still find the defect; its scenario stays in the replay set as a
+            # regression test of the repair
+            v.add_tlc("%s[%s] (witness: repair switch off, counterexample required)" % (c, key[1]), res)
+            if res.ok or not sc or res.violation != WITNESS[key[0]]:
+                raise vlib.MachineryError("sensitivity: with the repair switch off TLC no longer finds the repaired defect on %s[%s] (%s)"
+                                          % (c, key[1], res.violation))
+            leads.append((key, None, sc[0]))
+            continue
+        v.add_tlc("%s[%s] (lead, counterexample expected)" % (c, key[1]), res)
         if res.ok or not sc:
             # the model no longer contains the lead: nothing to replay
             v.cov.setdefault("leads_absent_from_model", []).append("%s:%s" % key)
@@ -450,10 +469,12 @@ def run(tier, seed, replay):
             fam, k = key
             if fam == "cache":
                 uris = ["u1"] if k == "read" else []
-                sc = concretise("lead.cache.%s" % k, "lead", steps_of(p), rng, ["M1"], ["M1"], 60000, [], uris)
+                sc = concretise("regress.cache.%s" % k, "lead", steps_of(p), rng, ["M1"], ["M1"], 60000, [], uris)
             else:
-                sc = concretise("lead.%s.%s" % (fam, k), "lead", steps_of(p), rng, ["M1"], ["M1"], 0, [], ["u1"])
-            lead_of[sc["id"]] = clause
+                sc = concretise("%s.%s.%s" % ("regress" if fam in WITNESS else "lead", fam, k), "lead", steps_of(p), rng,
+                                ["M1"], ["M1"], 0, [], ["u1"])
+            if clause is not None:
+                lead_of[sc["id"]] = clause
             scen.append(sc)
         # generated behaviours
         groups = {}
